@@ -168,7 +168,7 @@ func runOneControl(pr *rules.Property, repo, patch string, known map[string]bool
 	}
 	defer rules.Forget(p)
 	rp := core.NewReport(pr.Meta.ID, p)
-	pr.Run(p, rp)
+	pr.RunLocked(p, rp)
 	if nBad(rp) > 0 {
 		for _, mode := range []func(*core.Program) func(*types.Func) bool{rules.Anchors, rules.AnchorsByName} {
 			if rn := runNormalised(pr, dst, core.Configs[0], p, mode); rn != nil && nBad(rn) < nBad(rp) {
